@@ -9,7 +9,7 @@ use crate::examples;
 use crate::obs;
 use crate::report::Report;
 use crate::rng::Rng;
-use crate::world::{invoke, tag, Fail, Inv, World};
+use crate::world::{Must, invoke, tag, Fail, Inv, World};
 use crate::Cfg;
 use num_bigint::BigInt;
 use num_integer::Integer;
@@ -90,16 +90,16 @@ impl V {
         let n = self.n();
         let mut s = VState { shares: vec![], assets: vec![], supply: 0, share_allow: vec![], asset_allow: vec![] };
         for i in 0..n {
-            s.shares.push(invoke(e, &self.vault, "balance", args!(e, self.u[i])).unwrap());
-            s.assets.push(invoke(e, &self.asset, "balance", args!(e, self.u[i])).unwrap());
+            s.shares.push(invoke(e, &self.vault, "balance", args!(e, self.u[i])).must("balance"));
+            s.assets.push(invoke(e, &self.asset, "balance", args!(e, self.u[i])).must("balance"));
         }
         for o in 0..n {
             for sp in 0..n {
-                s.share_allow.push(invoke(e, &self.vault, "allowance", args!(e, self.u[o], self.u[sp])).unwrap());
-                s.asset_allow.push(invoke(e, &self.asset, "allowance", args!(e, self.u[o], self.u[sp])).unwrap());
+                s.share_allow.push(invoke(e, &self.vault, "allowance", args!(e, self.u[o], self.u[sp])).must("allowance"));
+                s.asset_allow.push(invoke(e, &self.asset, "allowance", args!(e, self.u[o], self.u[sp])).must("allowance"));
             }
         }
-        s.supply = invoke(e, &self.vault, "total_supply", args!(e)).unwrap();
+        s.supply = invoke(e, &self.vault, "total_supply", args!(e)).must("total_supply");
         s
     }
     fn getter(&self, f: &str, v: i128) -> Result<i128, Fail> {
